@@ -19,7 +19,8 @@ RULE = ('state = one distinct input (left line list, right line list, input form
         'pair of short line lists over {a, b, empty line} in those forms and as strings with alternating CRLF/LF terminators (blank '
         'lines: interior, leading, trailing, consecutive; empty strings as array elements); the pairs of '
         'length <= 2 again with the include executed for every call (fresh globals, and re-included into used globals so the '
-        'sentinel return runs); every (list, single edit) pair - insert / delete / replace one line - over {a,b}; every *.bare '
+        'sentinel return runs); arrays whose elements contain CR / LF / CRLF and texts with a CR inside a line; the same calls after a prelude '
+        'that uses the library functions diff.bare relies on with the same arguments and changes every returned container in place; every (list, single edit) pair - insert / delete / replace one line - over {a,b}; every *.bare '
         'file of the package directory parsed, validated and linted. A pair is non-trivial when its result has at least one '
         'Identical block and at least one Add or Remove block.')
 ASSUMPTIONS = [
@@ -27,11 +28,14 @@ ASSUMPTIONS = [
     'for a string input the line list is the text split at LF / CRLF; every interior or leading empty piece is a blank line that must be reconstructed',
     'for the empty text and for a text that ends with a line terminator both readings of the last (empty) line are accepted; an array element "" is an empty line',
     '"identical inputs" = both inputs have the same type and are equal',
+    'an array element is one line whatever it contains; for an element that contains LF the reading "text part that contributes its own lines" is accepted as well',
+    'a prelude only makes documented library calls; if one does not complete that is a harness error, not a verdict',
     'blocks may carry extra keys; only type and lines are inspected',
     'horizon maxStatements = 100000 per call (a call needs < 1000 statements within the bounds)',
 ]
 
 HORIZON = 100000
+STOP_AFTER_NOT_COMPLETED = 20
 FORMS = ['array', 'lf', 'crlf', 'mixed']
 TYPES = ('Identical', 'Add', 'Remove')
 _W = {}
@@ -68,21 +72,121 @@ def build_input(lines, form, side):
 def accepted_lines(value):
     """The line lists the property allows for this input (reference reading of 'the left/right lines').
 
-    Array: its elements, an empty string being an empty line. Text: the pieces between LF / CRLF terminators - every interior
+    Array: its elements, an empty string being an empty line (see below for elements containing LF). Text: the pieces between LF / CRLF terminators - every interior
     and leading empty piece is a blank line that must survive; whether a text that ends with a terminator (and the empty text)
     has a last, empty line is left open by the property, so both readings are accepted."""
     if not isinstance(value, str):
-        return [list(value)]
-    pieces = value.split('\n')
-    pieces = [p[:-1] if i < len(pieces) - 1 and p.endswith('\r') else p for i, p in enumerate(pieces)]
+        # An element is a line, whatever it contains: a lone CR, a trailing CR, ... An element that contains LF is the one
+        # open corner: "array of strings" may also be read as a list of text parts, each contributing its own lines
+        # (diff.bare does that, deliberately: it splits every element); both readings are accepted.
+        as_lines = list(value)
+        as_parts = []
+        for element in value:
+            as_parts.extend(text_pieces(element))
+        return [as_lines] if as_parts == as_lines else [as_lines, as_parts]
+    pieces = text_pieces(value)
     if pieces[-1] == '':
         return [pieces, pieces[:-1]]
     return [pieces]
 
 
+def text_pieces(text):
+    """The pieces of a text between LF / CRLF terminators (a CR that is not followed by LF belongs to its line)."""
+    pieces = text.split('\n')
+    return [p[:-1] if i < len(pieces) - 1 and p.endswith('\r') else p for i, p in enumerate(pieces)]
+
+
 def _options(bs_bare, glob):
     return {'globals': glob, 'fetchFn': bs_bare._fetch_include, 'systemPrefix': bs_bare._FETCH_INCLUDE_PREFIX,  # pylint: disable=protected-access
             'maxStatements': HORIZON}
+
+
+# Library use before the call, in the same globals and process: the functions diff.bare itself relies on are called with the same
+# text / pattern / arrays and every container they return is changed in place. diffLines afterwards must not be affected.
+PRELUDE_HELPERS = '''
+function c20Scribble(tmp):
+    arrayPush(tmp, 'zz')
+    arraySet(tmp, 0, 'yy')
+    arraySort(tmp)
+    arrayPop(tmp)
+    arrayPush(tmp, 'ww', 'vv')
+endfunction
+
+function c20Lines(val, re):
+    if systemType(val) == 'array':
+        lines = arrayNew()
+        for part in val:
+            arrayExtend(lines, regexSplit(re, part))
+        endfor
+        return lines
+    endif
+    return regexSplit(re, val)
+endfunction
+
+function c20PreludeSplit(val, re):
+    if systemType(val) == 'array':
+        for part in val:
+            c20Scribble(regexSplit(re, part))
+        endfor
+    else:
+        c20Scribble(regexSplit(re, val))
+    endif
+endfunction
+
+function c20PreludeSlices(val, re):
+    lines = c20Lines(val, re)
+    nn = arrayLength(lines)
+    if nn > 8:
+        nn = 8
+    endif
+    ix = 0
+    while ix <= nn:
+        c20Scribble(arraySlice(lines, ix))
+        jx = ix
+        while jx <= nn:
+            c20Scribble(arraySlice(lines, ix, jx))
+            jx = jx + 1
+        endwhile
+        ix = ix + 1
+    endwhile
+endfunction
+
+function c20PreludeNew():
+    c20Scribble(arrayNew())
+    for kind in arrayNew('Identical', 'Add', 'Remove'):
+        obj = objectNew('type', kind, 'lines', arrayNew())
+        c20Scribble(objectGet(obj, 'lines'))
+        objectSet(obj, 'type', 'Bogus')
+        objectSet(obj, 'lines', null)
+    endfor
+endfunction
+'''
+_FRESH_RE = "regexNew(stringFromCharCode(13) + '?' + stringFromCharCode(10))"
+PRELUDES = {
+    'split': 'c20PreludeSplit(vLeft, diffRegexLineSplit)\nc20PreludeSplit(vRight, diffRegexLineSplit)\n',
+    'split_fresh_regex': f'c20PreludeSplit(vLeft, {_FRESH_RE})\nc20PreludeSplit(vRight, {_FRESH_RE})\n',
+    'slices': 'c20PreludeSlices(vLeft, diffRegexLineSplit)\nc20PreludeSlices(vRight, diffRegexLineSplit)\n',
+    'new': 'c20PreludeNew()\n',
+}
+PRELUDES['all'] = ''.join(PRELUDES[k] for k in ('split', 'split_fresh_regex', 'slices', 'new'))
+PRELUDE_NAMES = ['split', 'split_fresh_regex', 'slices', 'new', 'all']
+
+
+def run_prelude(name, left, right):
+    """Run one prelude against the worker's globals (helpers are defined on first use). A prelude that does not complete is a
+    harness error: it only makes documented calls, and what it may disturb is judged on the diffLines call that follows."""
+    st = _worker_state()
+    bs, bs_bare = st['bs'], st['bare']
+    glob = st['glob']
+    try:
+        if 'preludes' not in st:
+            bs.execute_script(bs.parse_script(PRELUDE_HELPERS), _options(bs_bare, glob))
+            st['preludes'] = {k: bs.parse_script(v) for k, v in PRELUDES.items()}
+        glob['vLeft'] = left
+        glob['vRight'] = right
+        bs.execute_script(st['preludes'][name], _options(bs_bare, glob))
+    except Exception as exc:  # pylint: disable=broad-exception-caught
+        raise HarnessError(f'prelude {name} did not complete: {type(exc).__name__} {str(exc)[:200]}') from exc
 
 
 def _worker_state():
@@ -134,10 +238,32 @@ def run_diff(left, right, mode):
     return ('ok', res, opts.get('statementCount'))
 
 
+def brief(res):
+    """Bounded, shallow, JSON-able rendering of a diffLines result for a violation record (a broken result may be huge or
+    circular)."""
+    if not isinstance(res, list):
+        return repr(res)[:200]
+    out = []
+    for block in res[:8]:
+        if isinstance(block, dict):
+            lines = block.get('lines')
+            out.append({'type': block.get('type') if isinstance(block.get('type'), (str, type(None))) else type(block.get('type')).__name__,
+                        'lines': [x if isinstance(x, str) else '<' + type(x).__name__ + '>' for x in lines[:8]] + (['...'] if len(lines) > 8 else [])
+                        if isinstance(lines, list) else repr(lines)[:80]})
+        else:
+            out.append('<' + type(block).__name__ + '>')
+    if len(res) > 8:
+        out.append(f'... {len(res)} blocks')
+    return out
+
+
 def judge(left, right, identical, res):
     """The reconstruction invariant. Returns None if it holds, else (expected, what differs)."""
     if not isinstance(res, list):
         return ('an array of difference blocks', 'the result is not an array')
+    most = max(len(alt) for alt in accepted_lines(left)) + max(len(alt) for alt in accepted_lines(right))
+    if len(res) > most:
+        return (f'at most {most} blocks', f'{len(res)} blocks for {most} input lines (blocks are non-empty)')
     rec_left, rec_right = [], []
     for ix, block in enumerate(res):
         if not isinstance(block, dict):
@@ -170,24 +296,38 @@ def check_pair(case, acc):
     left = build_input(llines, form, 0)
     right = build_input(rlines, form, 1)
     keep = (show(left), show(right))
+    if acc.extra.get('not_completed', 0) >= STOP_AFTER_NOT_COMPLETED:
+        # the shard already has that many calls that ran into the horizon or raised: do not spend the horizon on every
+        # remaining case; the family is then reported as not exhaustive (the violations stand)
+        acc.capped = True
+        acc.count('skipped_after_repeated_non_completion')
+        return ('skipped',)
+    if case.get('prelude'):
+        if 'broken' not in _worker_state():
+            run_prelude(case['prelude'], left, right)
+        acc.evals += 1
     out = run_diff(left, right, mode)
     acc.evals += 1
     acc.transitions += 1
     if out[0] == 'raise':
         acc.traces += 1
         acc.violation(case, 'a list of difference blocks', list(out), 'diffLines did not complete (exception or statement horizon)')
+        acc.count('not_completed')
         return out
     res = out[1]
     acc.traces += 1
     if (show(left), show(right)) != keep:
-        acc.violation(case, {'left': keep[0], 'right': keep[1]}, {'left': show(left), 'right': show(right)}, 'diffLines changed an input')
+        acc.violation(case, {'left': keep[0], 'right': keep[1]}, {'left': show(left), 'right': show(right)}, 'an input was changed by the call (or by the library calls before it)')
+        left = build_input(llines, form, 0)
+        right = build_input(rlines, form, 1)
     identical = type(left) is type(right) and left == right
     for value in (left, right):
         if len(accepted_lines(value)) > 1:
-            acc.count('sides_with_open_last_line')     # empty text / text ending in a terminator: both readings accepted
+            # empty text / text ending in a terminator / array element containing LF: both readings accepted
+            acc.count('sides_with_open_last_line' if isinstance(value, str) else 'sides_with_multiline_elements')
     bad = judge(left, right, identical, res)
     if bad is not None:
-        acc.violation(case, bad[0], res, bad[1])
+        acc.violation(case, bad[0], brief(res), bad[1])
         return ('bad', bad[1])
     return tuple(b['type'] for b in res)
 
@@ -196,7 +336,7 @@ def _account(acc, obs):
     acc.cases += 1
     acc.states += 1
     acc.outcome(obs)
-    if isinstance(obs, tuple) and 'Identical' in obs and ('Add' in obs or 'Remove' in obs) and obs[0] not in ('raise', 'bad'):
+    if isinstance(obs, tuple) and 'Identical' in obs and ('Add' in obs or 'Remove' in obs) and obs[0] not in ('raise', 'bad', 'skipped'):
         acc.nontrivial += 1
 
 
@@ -247,6 +387,44 @@ def fam_blank(arg):
                     acc.states -= 1
                 if form == 'alt' and j == (i * 5 + 11) % len(pool) and '' in pool[i]:
                     acc.sample({'left': build_input(pool[i], form, 0), 'right': build_input(right, form, 1), 'form': form, 'block_types': obs})
+    return acc.result()
+
+
+ARRAY_TERMINATOR_ALPHABET = ['a', 'a\r', '\r', 'a\nb', 'a\r\nb']    # array elements: each is one line (LF inside: open, see accepted_lines)
+TEXT_CR_ALPHABET = ['a', 'a\rb', '\rb']                              # text lines with a CR that is not part of a terminator
+TEXT_CR_FORMS = ['lf', 'crlf', 'alt']
+
+
+def fam_terminators(arg):
+    kind, maxlen, lefts = arg
+    acc = Acc('terminator_chars')
+    pool = lists_upto(ARRAY_TERMINATOR_ALPHABET if kind == 'array' else TEXT_CR_ALPHABET, maxlen)
+    forms = ['array'] if kind == 'array' else TEXT_CR_FORMS
+    for i in lefts:
+        for j, right in enumerate(pool):
+            for form in forms:
+                obs = check_pair({'left': pool[i], 'right': right, 'form': form, 'mode': 'shared'}, acc)
+                _account(acc, obs)
+                if j == (i * 3 + 7) % len(pool) and i % 5 == 2:
+                    acc.sample({'left': build_input(pool[i], form, 0), 'right': build_input(right, form, 1), 'form': form, 'block_types': obs})
+    return acc.result()
+
+
+PRELUDE_FORMS = ['array', 'lf', 'crlf', 'mixed']
+
+
+def fam_prelude(arg):
+    maxlen, lefts = arg
+    acc = Acc('library_prelude')
+    pool = lists_upto('ab', maxlen)
+    for i in lefts:
+        for j, right in enumerate(pool):
+            for form in PRELUDE_FORMS:
+                for name in PRELUDE_NAMES:
+                    obs = check_pair({'left': pool[i], 'right': right, 'form': form, 'mode': 'shared', 'prelude': name}, acc)
+                    _account(acc, obs)
+                    if name == 'all' and form == 'lf' and j == (i + 6) % len(pool) and i % 4 == 1:
+                        acc.sample({'left': build_input(pool[i], form, 0), 'right': build_input(right, form, 1), 'form': form, 'prelude': name, 'block_types': obs})
     return acc.result()
 
 
@@ -351,6 +529,9 @@ def families(tier):
     elen = 8 if tier == 'quick' else 10
     blen = 3 if tier == 'quick' else 4
     nblank = n_lists(3, blen)
+    narr = n_lists(len(ARRAY_TERMINATOR_ALPHABET), blen)
+    ntxt = n_lists(len(TEXT_CR_ALPHABET), blen)
+    nprel = n_lists(2, blen)
     npool = n_lists(3, maxlen)
     nsmall = n_lists(3, 2)
     nedit = n_lists(2, elen)
@@ -370,6 +551,16 @@ def families(tier):
                f"every ordered pair of line lists of length <= {blen} over {{a, b, ''}} (blank lines: interior, leading, trailing, consecutive) x 5 forms "
                '(arrays, LF strings, CRLF strings, array vs CRLF string, strings with alternating CRLF/LF terminators)',
                expected=nblank * nblank * len(BLANK_FORMS)),
+        Family('terminator_chars', fam_terminators,
+               [('array', blen, r) for r in split(list(range(narr)), 48)] + [('text', blen, r) for r in split(list(range(ntxt)), 8)],
+               f"every ordered pair of arrays of length <= {blen} over the elements {{a, a+CR, CR, a+LF+b, a+CRLF+b}} (an element is a line), and every "
+               f"ordered pair of line lists of length <= {blen} over {{a, a+CR+b, CR+b}} as LF / CRLF / alternating-terminator strings",
+               expected=narr * narr + ntxt * ntxt * len(TEXT_CR_FORMS)),
+        Family('library_prelude', fam_prelude, [(blen, r) for r in split(list(range(nprel)), 31)],
+               f'every ordered pair of line lists of length <= {blen} over {{a,b}} x 4 forms x 5 preludes (regexSplit with the include\'s regex / a fresh '
+               'equal regex on the same texts, arraySlice at every index pair of the same line arrays, arrayNew / objectNew; every returned container '
+               'changed in place) run in the same globals right before the call',
+               expected=nprel * nprel * len(PRELUDE_FORMS) * len(PRELUDE_NAMES)),
         Family('single_edits', fam_edits, [(elen, r) for r in split(list(range(nedit)), 32)],
                f'every list of length <= {elen} over {{a,b}} x every single-line insert/delete/replace x 3 forms',
                expected=n_edits(elen) * len(EDIT_FORMS)),
